@@ -234,10 +234,15 @@ Next == \E b \in Brokers : \/ StartAny(b) \/ AcqDone(b) \/ Append_(b) \/ UpSegOk
 Spec == Init /\ [][Next]_vars
 
 \* ---------------------------------------------------------------- what a fresh broker reads from S3 + store (PartitionLog.Read after RestoreFromS3)
-FreshFail == \E o \in s3seg : o.base \notin s3idx /\ o.base < store
+FreshFailOf(sg, si, st) == \E o \in sg : o.base \notin si /\ o.base < st
 \* Read picks the first registered segment (by base) whose last offset reaches the offset
-Visible(o, x) == ~\E s \in Good : s.base < o.base /\ s.last >= x.base
-Fresh == IF FreshFail THEN {} ELSE UNION {{[id |-> x.id, base |-> x.base] : x \in {y \in Range(o.batches) : Visible(o, y)}} : o \in Good}
+FreshOf(sg, si, st) ==
+  LET good == {o \in sg : o.base \in si}
+      Visible(o, x) == ~\E s \in good : s.base < o.base /\ s.last >= x.base
+  IN IF FreshFailOf(sg, si, st) THEN {}
+     ELSE UNION {{[id |-> x.id, base |-> x.base] : x \in {y \in Range(o.batches) : Visible(o, y)}} : o \in good}
+FreshFail == FreshFailOf(s3seg, s3idx, store)
+Fresh == FreshOf(s3seg, s3idx, store)
 
 P == INSTANCE HandoverProps WITH acked <- acked, tainted <- tainted, freshFail <- FreshFail, fresh <- Fresh,
                                  overwritten <- overwritten, storeReg <- storeReg
